@@ -11,6 +11,7 @@ import (
 	"strings"
 	"time"
 
+	goframe "github.com/kishyassin/goframe"
 	"github.com/kishyassin/goframe/dataframe"
 )
 
@@ -70,6 +71,8 @@ type RCase struct {
 	RS        ResultSet `json:"rs"`
 	Entry     string    `json:"entry"`
 	Invalid   string    `json:"invalid,omitempty"` // nildb niltx emptyquery queryerr
+	// Root: call the root package's wrapper goframe.FromSQL* instead of dataframe.FromSQL* (not visible to the model)
+	Root bool `json:"root,omitempty"`
 	// oracles
 	Tp        []TpEntry   `json:"tp"`
 	Unix      []UnixEntry `json:"unix"`
@@ -389,13 +392,21 @@ func RunR(r *RCase) {
 			if r.Invalid == "nildb" {
 				h = nil
 			}
-			res, err = dataframe.FromSQL(h, query, nil, r.options()...)
+			if r.Root {
+				res, err = goframe.FromSQL(h, query, nil, r.options()...)
+			} else {
+				res, err = dataframe.FromSQL(h, query, nil, r.options()...)
+			}
 		case "FromSQLContext":
 			h := db
 			if r.Invalid == "nildb" {
 				h = nil
 			}
-			res, err = dataframe.FromSQLContext(context.Background(), h, query, []any{}, r.options()...)
+			if r.Root {
+				res, err = goframe.FromSQLContext(context.Background(), h, query, []any{}, r.options()...)
+			} else {
+				res, err = dataframe.FromSQLContext(context.Background(), h, query, []any{}, r.options()...)
+			}
 		default:
 			var tx *sql.Tx
 			if r.Invalid != "niltx" {
@@ -406,9 +417,14 @@ func RunR(r *RCase) {
 				}
 				defer tx.Rollback()
 			}
-			if r.Entry == "FromSQLTx" {
+			switch {
+			case r.Entry == "FromSQLTx" && r.Root:
+				res, err = goframe.FromSQLTx(tx, query, nil, r.options()...)
+			case r.Entry == "FromSQLTx":
 				res, err = dataframe.FromSQLTx(tx, query, nil, r.options()...)
-			} else {
+			case r.Root:
+				res, err = goframe.FromSQLTxContext(context.Background(), tx, query, nil, r.options()...)
+			default:
 				res, err = dataframe.FromSQLTxContext(context.Background(), tx, query, nil, r.options()...)
 			}
 		}
